@@ -31,13 +31,13 @@ pub fn rho_scale(e: &Entry, x: &Array1<f64>) -> f64 {
 
 pub fn t_factors(tier: Tier) -> Vec<f64> {
     match tier {
-        Tier::Quick => vec![0.4, 0.8, 1.5, 3.0],
+        Tier::Quick => vec![0.4, 0.6, 0.8, 1.0, 1.5, 3.0],
         Tier::Thorough => vec![0.4, 0.45, 0.5, 0.55, 0.6, 0.65, 0.7, 0.75, 0.8, 0.85, 0.9, 0.95, 1.0, 1.05, 1.1, 1.2, 1.35, 1.5, 1.75, 2.0, 2.5, 3.0, 4.0, 6.0],
     }
 }
 pub fn eta_factors(tier: Tier) -> Vec<f64> {
     match tier {
-        Tier::Quick => vec![1e-6, 1e-3, 0.1, 0.5, 0.9],
+        Tier::Quick => vec![1e-6, 1e-3, 0.05, 0.1, 0.3, 0.5, 0.7, 0.9],
         Tier::Thorough => vec![1e-8, 1e-6, 1e-5, 1e-4, 1e-3, 3e-3, 1e-2, 0.02, 0.05, 0.075, 0.1, 0.15, 0.2, 0.25, 0.3, 0.35, 0.4, 0.45, 0.5, 0.55, 0.6, 0.65, 0.7, 0.75, 0.8, 0.85, 0.9, 0.95],
     }
 }
